@@ -58,21 +58,36 @@ def check_execute(ctx: Ctx) -> None:
     ctx.need(len(run) == 1, "BaseDiscipline.execute: _execute_monitored call not found")
     rn = cfg.node_of(run[0])
 
-    def is_cache_test(n, exact=False) -> bool:
+    def cache_side(n, exact=False) -> bool | None:
+        """The outcome of test ``n`` on which there IS a cache (None: not a test of the cache)."""
         if cfg.kind[n] != "test":
-            return False
+            return None
         lits = conj_literals(cfg.ast[n].test)
-        hit = [1 for p, e in lits if p and norm_stmt(e) in ("self.cache is not None", "self.cache")]
-        return bool(hit) and (len(lits) == 1 or not exact)
+        if exact and len(lits) != 1:
+            return None
+        for p, e in lits:
+            txt = norm_stmt(e)
+            if txt in ("self.cache is not None", "self.cache"):
+                if p:
+                    return True
+                return False if len(lits) == 1 else None
+            if txt == "self.cache is None":
+                if not p:
+                    return True
+                return False if len(lits) == 1 else None
+        return None
 
-    cache_false = {cfg.branch[(n, False)] for n in cfg.nodes(lambda n: is_cache_test(n, exact=True)) if (n, False) in cfg.branch}
+    def is_cache_test(n, exact=False) -> bool:
+        return cache_side(n, exact) is not None
+
+    cache_false = {cfg.branch[(n, not cache_side(n, True))] for n in cfg.nodes(lambda n: is_cache_test(n, exact=True)) if (n, not cache_side(n, True)) in cfg.branch}
     look = rules.self_calls(f, "__can_load_cache", "BaseDiscipline")
     ok = len(look) == 1 and cfg.kind[cfg.node_of(look[0])] == "test"
     ctx.ob("5.1-lookup-first", con, ok, "with a cache, the inputs must be looked up (self.__can_load_cache) before the discipline runs", node=(look or [f])[0], stmt="cache lookup present")
     if ok:
         ln = cfg.node_of(look[0])
         ok = cfg.dominates(ln, rn) or cfg.must_pass(cfg.entry, {ln} | cache_false, rn)
-        ok = ok and not cfg.reachable(rn, ln) and any(cfg.under_branch(ln, n, True) for n in cfg.nodes(is_cache_test))
+        ok = ok and not cfg.reachable(rn, ln) and any(cfg.under_branch(ln, n, cache_side(n)) for n in cfg.nodes(is_cache_test))
         ctx.ob("5.1-lookup-first", con, ok, "a path with a cache reaches the run without having looked the inputs up", node=look[0], stmt="every cached path passes the lookup before the run")
         hit = cfg.branch[(ln, True)]
         ok = not cfg.reachable(hit, rn) and cfg.reachable(hit, cfg.exit)
